@@ -324,3 +324,93 @@ func c06RangeBound(c *Ctx) {
 	}
 	c.R.Floor(rule, n, 9)
 }
+
+// keyFromAs16: the bytes handed to Ipv6ByteSliceToUint32Array for a domain_routing_map key are
+// the whole 16-byte (IPv4-mapped) form of one address: the array is only ever assigned as a whole
+// from netip.Addr.As16() and never written element-wise (a partially refreshed scratch array keeps
+// bytes of the previous address).
+func keyFromAs16(c *Ctx, rule string) {
+	f := c.fn(rule, "control", "buildDomainRoutingOwnerSnapshot")
+	if f == nil {
+		return
+	}
+	info := f.Info()
+	n, ok := 0, true
+	detail := ""
+	for _, call := range f.FindCalls(core.ParseRefs("common.Ipv6ByteSliceToUint32Array")) {
+		n++
+		if len(call.Args) != 1 {
+			ok = false
+			continue
+		}
+		arg := ast.Unparen(call.Args[0])
+		if se, isSl := arg.(*ast.SliceExpr); isSl {
+			if se.Low != nil || se.High != nil {
+				ok, detail = false, "the key is a sub-slice "+core.ExprStr(arg)
+			}
+			arg = ast.Unparen(se.X)
+		}
+		id, isId := arg.(*ast.Ident)
+		if !isId {
+			// directly ip.As16()[:] is not addressable; anything else is not understood
+			ok, detail = false, "the key bytes are "+core.ExprStr(arg)
+			continue
+		}
+		obj := info.ObjectOf(id)
+		whole := 0
+		ast.Inspect(f.Body, func(m ast.Node) bool {
+			switch s := m.(type) {
+			case *ast.AssignStmt:
+				for i, l := range s.Lhs {
+					if core.RootObj(info, l) != obj {
+						continue
+					}
+					if lid, isIdent := ast.Unparen(l).(*ast.Ident); isIdent && info.ObjectOf(lid) == obj {
+						var rhs ast.Expr
+						if len(s.Rhs) == len(s.Lhs) {
+							rhs = s.Rhs[i]
+						}
+						cl, isCall := ast.Unparen(rhs).(*ast.CallExpr)
+						if isCall {
+							if cal := core.Callee(info, cl); cal != nil && cal.Name() == "As16" {
+								whole++
+								continue
+							}
+						}
+						ok, detail = false, fmt.Sprintf("%s is assigned from %s", id.Name, core.ExprStr(rhs))
+					} else {
+						ok, detail = false, fmt.Sprintf("%s is written element-wise (%s)", id.Name, core.ExprStr(l))
+					}
+				}
+			case *ast.CallExpr:
+				if fid, isB := s.Fun.(*ast.Ident); isB && fid.Name == "copy" && len(s.Args) == 2 && core.RootObj(info, sliceBase(s.Args[0])) == obj {
+					ok, detail = false, fmt.Sprintf("%s is filled by copy(%s, …)", id.Name, core.ExprStr(s.Args[0]))
+				}
+			case *ast.UnaryExpr:
+				if s.Op == token.AND && core.RootObj(info, s.X) == obj {
+					ok, detail = false, fmt.Sprintf("the address of %s is taken", id.Name)
+				}
+			}
+			return true
+		})
+		if whole == 0 {
+			ok = false
+			if detail == "" {
+				detail = id.Name + " is never assigned from As16()"
+			}
+		}
+	}
+	c.R.Checkf(rule, "key-is-mapped-16-byte-form", c.pos(f.Pos()), ok && n >= 1, "domain_routing_map keys are the whole 16-byte (IPv4-mapped) form of one address as four native-order words, as the kernel copies them: the byte array is assigned only as a whole from Addr.As16() and never written element-wise%s", func() string {
+		if detail == "" {
+			return ""
+		}
+		return " — " + detail
+	}())
+}
+
+func sliceBase(e ast.Expr) ast.Expr {
+	if se, ok := ast.Unparen(e).(*ast.SliceExpr); ok {
+		return se.X
+	}
+	return e
+}
